@@ -45,6 +45,130 @@ theorem pget_mergeInto (f c : PDict) (k : Name) :
       simp only [h, if_false, ih]
       simp [pget, List.find?_cons, h']
 
+theorem pget_none_of_not_key (d : PDict) (k : Name) (h : k ∉ d.map Prod.fst) : pget d k = none := by
+  induction d with
+  | nil => rfl
+  | cons kv r ih =>
+    simp only [List.map_cons, List.mem_cons, not_or] at h
+    have h1 : ¬ kv.1 = k := fun e => h.1 e.symm
+    have := ih h.2
+    simp only [pget, List.find?_cons, h1, decide_false] at this ⊢
+    exact this
+
+/-- the loop of inserts as the code runs it (first to last) builds the same dict: the keys of a dict are distinct -/
+theorem pget_mergeLoop (f : PDict) (hn : (f.map Prod.fst).Nodup) (c : PDict) (k : Name) :
+    pget (mergeLoop f c) k = (pget f k).or (pget c k) := by
+  induction f generalizing c with
+  | nil => simp [mergeLoop, pget]
+  | cons kv r ih =>
+    simp only [List.map_cons, List.nodup_cons] at hn
+    have : mergeLoop (kv :: r) c = mergeLoop r (pinsert kv.1 kv.2 c) := rfl
+    rw [this, ih hn.2, pget_pinsert]
+    by_cases h : k = kv.1
+    · subst h
+      rw [pget_none_of_not_key r _ hn.1]
+      simp [pget, List.find?_cons]
+    · have h' : ¬ kv.1 = k := fun e => h e.symm
+      simp [pget, List.find?_cons, h, h']
+
+theorem pget_cons (kv : Name × Nat) (r : PDict) (k : Name) :
+    pget (kv :: r) k = if kv.1 = k then some kv.2 else pget r k := by
+  by_cases h : kv.1 = k <;> simp [pget, List.find?_cons, h]
+
+/-- a loop of conditional inserts of a dict's own entries -/
+theorem pget_foldl_insert (c : Name × Nat → Bool) (l : PDict) (hn : (l.map Prod.fst).Nodup) (acc : PDict) (k : Name) :
+    pget (l.foldl (fun acc kv => if c kv then pinsert kv.1 kv.2 acc else acc) acc) k =
+      match pget l k with
+      | some v => if c (k, v) then some v else pget acc k
+      | none => pget acc k := by
+  induction l generalizing acc with
+  | nil => rfl
+  | cons kv r ih =>
+    simp only [List.map_cons, List.nodup_cons] at hn
+    simp only [List.foldl_cons]
+    rw [ih hn.2, pget_cons]
+    by_cases h : kv.1 = k
+    · subst h
+      rw [pget_none_of_not_key r _ hn.1]
+      simp only [if_true]
+      by_cases hc : c kv = true
+      · simp [hc, pget_pinsert]
+      · simp [hc]
+    · simp only [h, if_false]
+      have hacc : pget (if c kv = true then pinsert kv.1 kv.2 acc else acc) k = pget acc k := by
+        by_cases hc : c kv = true
+        · have h' : ¬ k = kv.1 := fun e => h e.symm
+          simp [hc, pget_pinsert, h']
+        · simp [hc]
+      rw [hacc]
+
+theorem pget_filter (p : Name × Nat → Bool) (l : PDict) (hn : (l.map Prod.fst).Nodup) (k : Name) :
+    pget (l.filter p) k =
+      match pget l k with
+      | some v => if p (k, v) then some v else none
+      | none => none := by
+  induction l with
+  | nil => rfl
+  | cons kv r ih =>
+    simp only [List.map_cons, List.nodup_cons] at hn
+    rw [pget_cons]
+    by_cases h : kv.1 = k
+    · subst h
+      simp only [if_true]
+      by_cases hp : p kv = true
+      · simp [List.filter_cons, hp, pget_cons]
+      · have hr : pget r kv.1 = none := pget_none_of_not_key r _ hn.1
+        have hp' : p kv = false := by simpa using hp
+        rw [List.filter_cons, hp']
+        simp only [Bool.false_eq_true, if_false]
+        rw [ih hn.2, hr]
+    · simp only [h, if_false]
+      by_cases hp : p kv = true
+      · simp only [List.filter_cons, hp, if_true]
+        rw [pget_cons]
+        simp only [h, if_false]
+        exact ih hn.2
+      · have hp' : p kv = false := by simpa using hp
+        rw [List.filter_cons, hp']
+        exact ih hn.2
+
+theorem ite_bool_aux (a b c : Bool) (x y : Option Nat) :
+    (if (a && c) = true then x else if (b && a) = true then x else y) = if (a && (b || c)) = true then x else y := by
+  cases a <;> cases b <;> cases c <;> simp
+
+theorem pget_flattenedLoop_aux (fuel : Nat) (ns : Ns) (parent : PDict) (hn : (parent.map Prod.fst).Nodup) (k : Name) :
+    ∀ (fl : List Name) (acc : PDict),
+      pget (fl.foldl (fun acc sym => flatInner fuel ns sym parent acc) acc) k =
+        match pget parent k with
+        | some v => if (v != 0 && fl.any (fun s => fitsB fuel ns k s)) = true then some v else pget acc k
+        | none => pget acc k := by
+  intro fl
+  induction fl with
+  | nil => intro acc; cases pget parent k <;> simp
+  | cons s r ih =>
+    intro acc
+    simp only [List.foldl_cons]
+    rw [ih]
+    have hin := pget_foldl_insert (fun kv => fitsB fuel ns kv.1 s && kv.2 != 0) parent hn acc k
+    have : pget (flatInner fuel ns s parent acc) k =
+        match pget parent k with
+        | some v => if (fitsB fuel ns k s && v != 0) = true then some v else pget acc k
+        | none => pget acc k := hin
+    rw [this]
+    cases pget parent k with
+    | none => rfl
+    | some v =>
+      simp only [List.any_cons]
+      exact ite_bool_aux _ _ _ _ _
+
+theorem pget_flattenedLoop (fuel : Nat) (ns : Ns) (fl : List Name) (parent : PDict) (hn : (parent.map Prod.fst).Nodup)
+    (k : Name) : pget (flattenedLoop fuel ns fl parent) k = pget (flattened fuel ns fl parent) k := by
+  unfold flattenedLoop flattened
+  rw [pget_flattenedLoop_aux fuel ns parent hn k fl [], pget_filter _ parent hn k]
+  cases pget parent k with
+  | none => rfl
+  | some v => simp [pget]
+
 theorem mem_flattened (fuel : Nat) (ns : Ns) (fl : List Name) (parent : PDict) (k : Name) (v : Nat) :
     (k, v) ∈ flattened fuel ns fl parent ↔
       (k, v) ∈ parent ∧ v ≠ 0 ∧ ∃ sym, sym ∈ fl ∧ fitsB fuel ns k sym = true := by
